@@ -110,6 +110,35 @@ fn cheetah(e: &Env, rng: &mut impl Rng, m: usize, r: usize, n: usize, objective:
     println!("{}", ev);
 }
 
+/// Layout of the coefficient packing for Cheetah.tla: the encoded polynomials of structured operands and the term lists
+#[allow(deprecated)]
+fn cheetah_layout(e: &Env, m: usize, r: usize, n: usize, objective: MatmulHelperObjective) {
+    let x: Vec<u64> = (0..m * r).map(|i| 1 + (i as u64 % (e.t - 1))).collect();
+    let w: Vec<u64> = (0..r * n).map(|i| 1 + ((2 + 3 * i as u64) % (e.t - 1))).collect();
+    let mut ev = json!({"k": "cheetah_layout", "objective": format!("{:?}", objective), "N": e.n, "t": e.t, "m": m, "r": r, "n": n, "x": x, "w": w});
+    let out = guarded(|| {
+        let h = MatmulHelper::new(m, r, n, e.n, objective, false);
+        let dec = |p: &Plaintext| -> Vec<u64> {
+            let mut v = e.enc.decode_polynomial_new(p);
+            v.resize(e.n, 0);
+            v
+        };
+        let xe: Vec<Vec<Vec<u64>>> = h.encode_inputs_bfv(&e.enc, &x).data.iter().map(|row| row.data.iter().map(|p| dec(p)).collect()).collect();
+        let we: Vec<Vec<Vec<u64>>> = h.encode_weights_bfv(&e.enc, &w).data.iter().map(|row| row.data.iter().map(|p| dec(p)).collect()).collect();
+        (xe, we, h.input_terms(), h.output_terms())
+    });
+    match out {
+        Ok((xe, we, it, ot)) => {
+            ev["enc_in"] = json!(xe);
+            ev["enc_w"] = json!(we);
+            ev["in_terms"] = json!(it);
+            ev["out_terms"] = json!(ot);
+        }
+        Err(msg) => ev["panic"] = json!(msg),
+    }
+    println!("{}", ev);
+}
+
 fn bolt(e: &Env, rng: &mut impl Rng, which: &str, m: usize, r: usize, n: usize) {
     let x = rand_vec(rng, m * r, e.t);
     let w = rand_vec(rng, r * n, e.t);
@@ -203,6 +232,16 @@ pub fn main(args: &[String]) {
                                 }
                                 cheetah(&e, &mut rng, m, r, nn, obj, rev, pack);
                             }
+                        }
+                    }
+                }
+            }
+            // the coefficient layout itself (Cheetah.tla): every shape up to mx + 1, every objective
+            for m in 1..=mx + 1 {
+                for r in 1..=mx + 1 {
+                    for nn in 1..=mx + 1 {
+                        for obj in [MatmulHelperObjective::CipherPlain, MatmulHelperObjective::PlainCipher, MatmulHelperObjective::CpAddPc] {
+                            cheetah_layout(&e, m, r, nn, obj);
                         }
                     }
                 }
